@@ -23,7 +23,7 @@ RULE = ("one run = one export stream: records for 1-6 cards fragmented by contes
         "non-trivial = some identifier occurs more than once with overlapping contests or differing flags; distinct = "
         "distinct event-log digest")
 ASSUMPTIONS = [
-    "flags in the stream are Python booleans; tally pools are strings (including the empty string and strings that print like another label), integers (including 0) or None",
+    "the phantom flag in the stream is a Python boolean, a numpy boolean or 0/1; the pool flag a Python or numpy boolean (the statement asks for a true/false value back); tally pools are strings (including the empty string and strings that print like another label), integers (including 0) or None",
     "RAIRE rankings are duplicate-free; the file is written by the simulator exactly in the documented layout (plain joins, or the csv module's quoting when a name contains the delimiter or a quote)",
 ]
 COMPONENTS = {
@@ -35,7 +35,8 @@ PROBES = ["tally pool conflict", "later record overrides contest", "phantom and 
           "falsy tally pool label", "falsy card identifier", "raire ballot id equals a candidate id",
           "records built with CVR.from_dict", "RAIRE file read twice, first result mutated in between",
           "records share a contest dict (constructor default / one template)",
-          "RAIRE file with quoted fields (delimiter / quote inside a name)"]
+          "RAIRE file with quoted fields (delimiter / quote inside a name)", "flags as numpy booleans / 0-1 integers",
+          "a contest whose identifier is the word 'Contest'"]
 
 
 def generate(rng, tier):
@@ -47,6 +48,8 @@ def generate(rng, tier):
             cands = [str(rng.randint(1, 99)) for _ in range(rng.randint(2, 5))]
             cands = sorted(set(cands))
             contests.append({"id": str(300 + j), "cands": cands})
+        if rng.chance(0.15):  # an identifier may be any text - also the word the header lines start with
+            contests[0]["id"] = "Contest"
         ballots = []
         nb = rng.randint(1, 8)
         if rng.chance(0.4):
@@ -102,7 +105,7 @@ def generate(rng, tier):
         if conflict and rng.chance(0.2):
             tp = rng.pick([p_ for p_ in pools if p_ is not None] + ["p3"])
         recs.append({"id": i, "votes": votes, "phantom": rng.chance(0.3), "pool": rng.chance(0.3), "tally_pool": tp})
-    return {"kind": "merge", "records": recs, "via_from_dict": rng.chance(0.5),
+    return {"kind": "merge", "records": recs, "via_from_dict": rng.chance(0.5), "flag_type": rng.pick(["bool", "bool", "numpy", "int"]),
             "omit_defaults": rng.chance(0.5), "shared_dicts": rng.chance(0.5)}
 
 
@@ -200,7 +203,10 @@ def execute(case):
                 out.violate("C18.a", f"from_dict/raised-{type(e).__name__}", f"CVR.from_dict raised {e!r}")
                 return out
         else:
-            cvrs = W.mk_cvrs(ns, recs)
+            ft = case.get("flag_type", "bool")
+            if ft != "bool":
+                out.probe("flags as numpy booleans / 0-1 integers")
+            cvrs = W.mk_cvrs(ns, [dict(r, flag_type=ft) for r in recs])
             if case.get("shared_dicts"):
                 # records need not own a private contest dict: a record built without the votes argument holds the
                 # constructor's default, and records with the same content may have been built from one template
@@ -210,7 +216,8 @@ def execute(case):
                 templates = {}
                 cvrs = []
                 for r in recs:
-                    kw = dict(id=r["id"], phantom=bool(r["phantom"]), pool=bool(r["pool"]), tally_pool=r["tally_pool"])
+                    kw = dict(id=r["id"], phantom=W._flag(r["phantom"], ft), pool=W._flag(r["pool"], "numpy" if ft == "numpy" else "bool"),
+                              tally_pool=r["tally_pool"])
                     if not r["votes"]:
                         cvrs.append(ns.CVR(**kw))
                     else:
@@ -261,6 +268,8 @@ def execute(case):
         out.fault("F13 records for one card fragmented / repeated")
     if any(not b["ranking"] for b in case["ballots"]):
         out.probe("raire empty ranking")
+    if any(con["id"] == "Contest" for con in case["contests"]):
+        out.probe("a contest whose identifier is the word 'Contest'")
     if any(b["id"] in b["ranking"] for b in case["ballots"]):
         out.probe("raire ballot id equals a candidate id")
     out.units["records"] += len(recs)
